@@ -421,10 +421,13 @@ async fn client(c: Ctx) -> turmoil::Result {
 async fn u_server(c: Ctx) -> turmoil::Result {
     let _g = c.guard("main");
     let l = TcpListener::bind(any(9500)).await?;
+    let _ol = c.obj(json!(["listener", 9500]));
     let u = UdpSocket::bind(any(9600)).await?;
+    let ou = c.obj(json!(["udp", 9600]));
     let c2 = c.clone();
     tokio::task::spawn_local(async move {
         let _g = c2.guard("uudp");
+        let _o = ou;
         let mut buf = [0u8; 16];
         loop {
             let Ok((n, from)) = u.recv_from(&mut buf).await else { break };
@@ -432,10 +435,11 @@ async fn u_server(c: Ctx) -> turmoil::Result {
         }
     });
     loop {
-        let (mut s, _) = l.accept().await?;
+        let Ok((mut s, _)) = l.accept().await else { break };
         let c3 = c.clone();
         tokio::task::spawn_local(async move {
             let _g = c3.guard("uconn");
+            let _o = c3.stream_obj(&s, "whole");
             let mut buf = [0u8; 4];
             loop {
                 match s.read(&mut buf).await {
@@ -449,29 +453,41 @@ async fn u_server(c: Ctx) -> turmoil::Result {
             }
         });
     }
+    std::future::pending::<()>().await;
+    Ok(())
 }
 
 async fn u_client(c: Ctx) -> turmoil::Result {
     let _g = c.guard("main");
     let peer = c.sh.ips.borrow()[2];
     tokio::time::sleep(c.tick).await;
-    let mut s = TcpStream::connect((peer, 9500)).await?;
-    let u = UdpSocket::bind(any(9700)).await?;
-    let mut k = 0u64;
-    let mut buf = [0u8; 16];
-    loop {
-        s.write_all(&[k as u8; 4]).await?;
-        let mut b = [0u8; 4];
-        s.read_exact(&mut b).await?;
-        c.log("U", "echo", json!(k), json!(turmoil::elapsed().as_nanos() as u64));
-        let _ = u.send_to(&k.to_le_bytes(), (peer, 9600)).await;
-        while let Ok((_, _)) = u.try_recv_from(&mut buf) {
-            let got = u64::from_le_bytes(buf[..8].try_into().unwrap());
-            c.log("U", "udp", json!(got), Value::Null);
+    let r: std::io::Result<()> = async {
+        let mut s = TcpStream::connect((peer, 9500)).await?;
+        let _os = c.stream_obj(&s, "whole");
+        let u = UdpSocket::bind(any(9700)).await?;
+        let _ou = c.obj(json!(["udp", 9700]));
+        let mut k = 0u64;
+        let mut buf = [0u8; 16];
+        loop {
+            s.write_all(&[k as u8; 4]).await?;
+            let mut b = [0u8; 4];
+            s.read_exact(&mut b).await?;
+            c.log("U", "echo", json!(k), json!(turmoil::elapsed().as_nanos() as u64));
+            let _ = u.send_to(&k.to_le_bytes(), (peer, 9600)).await;
+            while let Ok((_, _)) = u.try_recv_from(&mut buf) {
+                let got = u64::from_le_bytes(buf[..8].try_into().unwrap());
+                c.log("U", "udp", json!(got), Value::Null);
+            }
+            k += 1;
+            tokio::time::sleep(c.tick).await;
         }
-        k += 1;
-        tokio::time::sleep(c.tick).await;
     }
+    .await;
+    if let Err(e) = r {
+        c.log("U", "end", json!(kind(&e)), Value::Null);
+    }
+    std::future::pending::<()>().await;
+    Ok(())
 }
 
 // ---- controller -------------------------------------------------------------------------
